@@ -41,6 +41,10 @@ def pumlOpts : Nat → R.POpts
   | 3 => { vopt := fun c => match c with | .V => some ⟨"object", false⟩ | _ => none
            lopt := fun c => match c with
              | .D => some ⟨"", ">"⟩ | .U => some ⟨"", ""⟩ | .X => some ⟨"o", "o"⟩ | _ => none }
+  | 4 => { vopt := fun c => match c with
+             | .V => some ⟨"object", false⟩ | .SV => some ⟨"class", true⟩ | _ => none
+           lopt := fun c => match c with
+             | .D => some ⟨"", ">"⟩ | .U => some ⟨"", ""⟩ | _ => none }
   | _ => { vopt := fun c => match c with | .V => some ⟨"object", false⟩ | _ => none
            lopt := fun c => match c with
              | .D => some ⟨"", ">"⟩ | .U => some ⟨"", ""⟩ | _ => none }
